@@ -1,3 +1,28 @@
 import Uflow.Props.C12
 open Uflow.Props.C12
+#print axioms C12_emit_resend_flag
+#print axioms C12_refill
+#print axioms C12_pendingInner_push
+#print axioms C12_pending_once_flush
+#print axioms C12_pending_once
+#print axioms C12_ginv_init
 #print axioms C12_dropStale_head
+#print axioms C12_dropStale
+#print axioms C12_ts_drop_queue
+#print axioms C12_ts_stale_after_step
+#print axioms C12_pendingInner_expired
+#print axioms C12_ts_wire_flush
+#print axioms C12_ts_wire
+#print axioms C12_ts_drop_partial
+#print axioms C12_resendLoop_skip
+#print axioms C12_pendingInner_skip
+#print axioms C12_dead
+#print axioms C12_flush_pushes_live
+#print axioms C12_no_resend_after_ack
+#print axioms C12_resendLoop_push
+#print axioms C12_heap
+#print axioms C12_resend_until_ack_flush
+#print axioms C12_resend_until_ack
+#print axioms Uflow.Wire.flushT_erase
+#print axioms Uflow.Wire.flush_iff_flushT
+#print axioms Uflow.Modes.execT_erase
